@@ -224,7 +224,11 @@ func runBehaviour(t *testing.T, tr *trace, steps []step, nc, nr, limit int) {
 	synctest.Test(t, func(t *testing.T) {
 		e := &env{nc: nc, nr: nr, limit: limit, running: make([]int, nc), maxrun: make([]int, nc), obey: make(chan struct{})}
 		e.lis = bufconn.Listen(1 << 16)
-		e.srv = grpc.NewServer(grpc.MaxConcurrentStreams(uint32(limit)), grpc.UnknownServiceHandler(e.handle))
+		sopts := []grpc.ServerOption{grpc.MaxConcurrentStreams(uint32(limit)), grpc.UnknownServiceHandler(e.handle)}
+		if w := vlib.EnvInt("VERIF_WORKERS", 0); w > 0 {
+			sopts = append(sopts, grpc.NumStreamWorkers(uint32(w))) // handlers run on the stream worker pool
+		}
+		e.srv = grpc.NewServer(sopts...)
 		go e.srv.Serve(e.lis)
 		for c := 0; c < nc; c++ {
 			cc, err := grpc.NewClient("passthrough:///c25", grpc.WithTransportCredentials(insecure.NewCredentials()),
